@@ -84,6 +84,25 @@ pub fn affine_case(cx: &mut Ctx, n: u64, case: &Value) {
         }
         Err(p) => chk("inverse", "inverse".into(), false, format!("PANIC {p}")),
     }
+    // the same matrix with all six entries scaled exactly by 2^-30, 2^-45 and 2^40 (determinant scaled by the square: tiny or
+    // huge, but zero exactly when it was zero): inverse(s M) has the linear part of inverse(M) divided by s and the same offset
+    {
+        for sc in [2f64.powi(-30), 2f64.powi(-45), 2f64.powi(40)] {
+            let ms = AffineTransform::new(post[0] * sc, post[1] * sc, post[2] * sc, post[3] * sc, post[4] * sc, post[5] * sc);
+            match guard(|| ms.inverse()) {
+                Ok(None) => chk("inverse_scaled", format!("inverse of the matrix scaled by {sc}: None"), det == 0.0, "None".into()),
+                Ok(Some(i)) => {
+                    let nums = mat(&case["inverse"][0]);
+                    let w: Vec<f64> = nums.iter().map(|x| x / det).collect();
+                    let want6 = [w[0] / sc, w[1] / sc, w[2], w[3] / sc, w[4] / sc, w[5]];
+                    let got = entries(&i);
+                    let ok = det != 0.0 && (0..6).all(|k| (got[k] - want6[k]).abs() <= 1e-12 * want6[k].abs().max(1.0));
+                    chk("inverse_scaled", format!("inverse of the matrix scaled by {sc}"), ok, format!("{got:?} want {want6:?}"));
+                }
+                Err(p) => chk("inverse_scaled", "inverse of a scaled matrix".into(), false, format!("PANIC {p}")),
+            }
+        }
+    }
     // integer scalar type: builder steps without trigonometry are exact; inverse only when unimodular
     if exact {
         let iv = |m: &[f64; 6]| AffineTransform::<i64>::new(m[0] as i64, m[1] as i64, m[2] as i64, m[3] as i64, m[4] as i64, m[5] as i64);
